@@ -1,6 +1,7 @@
 package c14
 
 import (
+	"bytes"
 	"encoding/json"
 	"fmt"
 	"os"
@@ -8,7 +9,6 @@ import (
 	"path/filepath"
 	"runtime"
 	"sort"
-	"strings"
 	"sync"
 	"sync/atomic"
 	"time"
@@ -382,6 +382,7 @@ func seqInt(n int) []int {
 func LinChild() int {
 	run := vh.Start("C14")
 	res := LinLeg(run, "race", run.N(20, 1600))
+	serviceUnderRace(run, res)
 	b, _ := json.Marshal(res)
 	out := os.Getenv("C14_OUT")
 	if out == "" {
@@ -439,12 +440,15 @@ func raceChild(run *vh.Run, res *Result) bool {
 		if err != nil {
 			continue
 		}
-		for _, rep := range parseRaceReports(string(txt)) {
+		for _, rep := range vh.ParseRaceLog(string(txt)) {
 			res.Count("race_reports", 1)
-			if rep.evermint {
-				res.Violation("data-race:"+rep.key, "lin", map[string]any{"leg": "linearizability", "build": "race", "report": trunc(rep.text, 6000)})
-			} else {
-				deps[rep.key]++
+			switch rep.Class {
+			case "evermint":
+				res.Violation("data-race:"+rep.Key, "lin", map[string]any{"leg": "linearizability+service", "build": "race", "report": trunc(rep.Text, 6000)})
+			case "harness":
+				res.Inconclusive = append(res.Inconclusive, "race report inside the harness itself: "+rep.Key)
+			default:
+				deps[rep.Key]++
 			}
 		}
 	}
@@ -476,74 +480,42 @@ func mergeResult(dst, src *Result) {
 	dst.Inconclusive = append(dst.Inconclusive, src.Inconclusive...)
 }
 
-type raceReport struct {
-	text     string
-	key      string // outermost evermint frame of each access stack (or outermost frames at all for dependency reports)
-	evermint bool
-}
-
-const evermintPkg = "github.com/EscanBE/evermint"
-
-// parseRaceReports splits a GORACE log into reports and classifies each by the outermost
-// evermint frame of its two access stacks.
-func parseRaceReports(txt string) []raceReport {
-	var out []raceReport
-	for _, blk := range strings.Split(txt, "==================") {
-		if !strings.Contains(blk, "WARNING: DATA RACE") {
-			continue
+// serviceUnderRace runs uninterrupted sessions of the REAL EVMIndexerService (status poll, header
+// subscription goroutine, catch-up loop, live blocks, stop) in this race-build process: the detector
+// watches the service's own goroutines; the index must equal the one built by plain IndexBlock calls.
+func serviceUnderRace(run *vh.Run, res *Result) {
+	n := run.N(3, 24)
+	for i := 0; i < n; i++ {
+		r := run.RNG("service-race", i)
+		w := c13.NewWorld(r, c13.WorldCfg{MaxGas: viewMaxGas[i%len(viewMaxGas)], NumVals: 1, KeepBlocks: true}, nil)
+		for b := 0; b < 14; b++ {
+			w.Step(c13.DrawSize(r))
 		}
-		rep := raceReport{text: strings.TrimSpace(blk)}
-		var keys []string
-		sections := strings.Split(strings.TrimSpace(blk), "\n\n")
-		nAccess := 0
-		for _, sec := range sections {
-			lines := strings.Split(sec, "\n")
-			head := ""
-			for _, l := range lines {
-				if strings.TrimSpace(l) != "" && !strings.Contains(l, "WARNING: DATA RACE") {
-					head = l
-					break
-				}
+		e := newEnv(fmt.Sprintf("service-race-%d", i), w)
+		H := e.st.Height()
+		h := &history{label: e.label, st: e.st, cctx: ClientCtx(w.C.Enc, nil), mode: "fresh", start: int64(r.Range(2, 6)), end: H}
+		db := h.initialDB()
+		out := h.session(db, nil, h.start, h.end)
+		res.Evals++
+		res.Count("service_sessions_under_race_detector", 1)
+		res.Count("service_blocks_indexed_under_race_detector", int(out.indexed))
+		if out.watchdog {
+			res.Inconclusive = append(res.Inconclusive, "service session under the race detector hit the watchdog")
+		} else if out.startErr != nil {
+			res.Violation("indexer-service-error", e.label, out.startErr.Error())
+		} else {
+			// reference: the same blocks through IndexBlock directly
+			ref := dbm.NewMemDB()
+			idx := indexer.NewKVIndexer(ref, log.NewNopLogger(), h.cctx)
+			for b := h.start + 1; b <= h.end; b++ {
+				sb := h.st.at(b)
+				_ = idx.IndexBlock(sb.rb.Block, sb.rr.TxsResults)
 			}
-			isAccess := strings.Contains(head, " at 0x") && strings.Contains(head, "by ")
-			if !isAccess {
-				continue
+			if !bytes.Equal(DumpDB(db), DumpDB(ref)) {
+				res.Violation("service-index-differs-from-direct-indexing", e.label, map[string]any{"start": h.start, "end": h.end, "service_entries": countDump(DumpDB(db)), "direct_entries": countDump(DumpDB(ref))})
 			}
-			nAccess++
-			var frames []string
-			for _, l := range lines {
-				if strings.HasPrefix(l, "  ") && !strings.HasPrefix(l, "   ") {
-					fn := strings.TrimSpace(l)
-					if i := strings.LastIndex(fn, "("); i > 0 && strings.HasSuffix(fn, ")") {
-						fn = fn[:i]
-					}
-					frames = append(frames, fn)
-				}
-			}
-			outer := ""
-			for _, fn := range frames { // frames are listed innermost first: keep the last evermint one
-				if strings.Contains(fn, evermintPkg) {
-					outer = fn
-				}
-			}
-			if outer != "" {
-				rep.evermint = true
-				if i := strings.Index(outer, "/v12/"); i >= 0 {
-					outer = outer[i+5:]
-				}
-				keys = append(keys, outer)
-			} else if len(frames) > 0 {
-				keys = append(keys, frames[0])
-			}
+			res.Nontrivial(fmt.Sprintf("service-under-race|blocks=%d", h.end-h.start))
 		}
-		if strings.Contains(blk, evermintPkg) && !rep.evermint {
-			// evermint only in goroutine-creation stacks: still an evermint-involved report
-			rep.evermint = true
-			keys = append(keys, "goroutine-created-in-evermint")
-		}
-		sort.Strings(keys)
-		rep.key = strings.Join(keys, "|")
-		out = append(out, rep)
+		w.C.Cleanup()
 	}
-	return out
 }
